@@ -631,6 +631,10 @@ def _via_helper(fi: FuncInfo, v: ast.expr, store: ast.AST):
     return out if h.module is fi.module else None
 
 
+def _empty(e: ast.expr) -> bool:
+    return (isinstance(e, (ast.Tuple, ast.List)) and not e.elts) or (isinstance(e, ast.Call) and isinstance(e.func, ast.Name) and e.func.id in ("tuple", "list") and not e.args)
+
+
 def parent_is(node: ast.AST, anc: ast.AST):
     p = parent(node)
     while p is not None:
@@ -748,8 +752,16 @@ def run(repo: Repo, res: Result, rule: str, filter_cls: ClassInfo, pred: str) ->
                 else:
                     ok, detail = None, f"`{norm(elt, 80)}` is not `re.compile(<pattern>)`"
                     break
-            # source: attribute of the config parameter (or the parameter itself)
+            # source: attribute of the config parameter (or the parameter itself), possibly with a None -> () default
             base = src
+            if isinstance(base, ast.BoolOp) and isinstance(base.op, ast.Or) and len(base.values) == 2 and _empty(base.values[1]):
+                base = base.values[0]
+                info["none_ok"] = True
+            elif isinstance(base, ast.IfExp) and isinstance(base.test, ast.Compare) and len(base.test.ops) == 1 and isinstance(base.test.comparators[0], ast.Constant) and base.test.comparators[0].value is None:
+                a, b = (base.body, base.orelse) if isinstance(base.test.ops[0], ast.Is) else (base.orelse, base.body)
+                if _empty(a) and norm(b) == norm(base.test.left):
+                    base = b
+                    info["none_ok"] = True
             if isinstance(base, ast.Attribute) and isinstance(base.value, ast.Name) and base.value.id == cfg_param:
                 info["field"] = base.attr
                 ct = T.param_type(init, cfg_param)
